@@ -106,6 +106,10 @@ func TestC17(t *testing.T) {
 			continue
 		}
 		r.Progress(id, "")
+		if vf.Hash("c17-family", id)%40 == 0 {
+			c17HalfClose(r, t, id, r.Rand(id))
+			continue
+		}
 		c17Scenario(r, t, id, r.Rand(id))
 		if i%200 == 0 {
 			trk.Reset()
@@ -414,4 +418,67 @@ func c17Scenario(r *vf.Run, t *testing.T, id string, rng *rand.Rand) {
 	if r.WantSample() {
 		r.Sample(replay)
 	}
+}
+
+// c17HalfClose: the peer asks for a response far larger than the transport holds, stops reading it, and then ends its
+// own sending direction (FIN) while the socket stays open. It will never send another frame and never reads another
+// byte: it is gone, and ServeConn returns - it does not sit behind a write that can never complete.
+func c17HalfClose(r *vf.Run, t *testing.T, id string, rng *rand.Rand) {
+	buf := []int{4 << 10, 64 << 10, 1 << 20}[rng.Intn(3)]
+	size := (3 + rng.Intn(4)) << 20
+	mode := rng.Intn(4)
+	replay := map[string]any{"family": "half-close-behind-a-stalled-response", "buf_to_peer": buf, "response": size, "response_mode": mode}
+	failed := false
+	fail := func(rule, detail string) {
+		if !failed {
+			r.Fail("C17."+rule, id, detail, nil, replay)
+		}
+		failed = true
+	}
+	res := rt.RunBubble(t, id, 60*time.Second, func() {
+		e := rt.NewServerEnv(id, rt.ServerOpts{BufToPeer: buf})
+		tag := id + ".big"
+		e.H.SetPlan(tag, &rt.RespPlan{Status: 200, Body: make([]byte, size), Stream: mode, ReadChunk: 16384})
+		rt.Wait()
+		e.P.StopReading()
+		e.P.Write(append(append(rt.WindowUpdate(0, 1<<30), simpleGet(e.P, 1, tag)...), rt.WindowUpdate(1, 1<<30)...))
+		rt.Wait()
+		if rng.Intn(2) == 0 {
+			time.Sleep(time.Duration(rng.Intn(3000)) * time.Millisecond)
+			rt.Wait()
+		}
+		e.PeerConn.CloseWrite()
+		rt.Wait()
+		time.Sleep(15 * time.Second)
+		rt.Wait()
+		if !e.Served() {
+			fail("serve-did-not-return", fmt.Sprintf("the peer stopped reading a %d-byte response (%d bytes of transport), then closed its sending direction and kept the socket open; 15 virtual seconds later ServeConn has not returned. SUT goroutines:\n%s", size, buf, strings.Join(rt.GoroutinesOf(id, "github.com/dgrr/http2."), "\n")))
+		}
+		returned, leaked := e.Finish()
+		if len(leaked) > 0 {
+			time.Sleep(20 * time.Second)
+			rt.Wait()
+			leaked = rt.GoroutinesOf(id, "github.com/dgrr/http2.")
+		}
+		if returned && len(leaked) > 0 {
+			fail("goroutine-leak", fmt.Sprintf("ServeConn returned but %d goroutine(s) of the connection are still alive:\n%s", len(leaked), strings.Join(leaked, "\n")))
+		}
+		if w := rt.GoroutinesOf(id, "fasthttp.NewStreamReader"); len(w) > 0 && returned {
+			fail("goroutine-leak", fmt.Sprintf("ServeConn returned but %d response-writer goroutine(s) are still waiting for somebody to read or close their body", len(w)))
+		}
+		for _, l := range e.Log.Panics() {
+			fail("panic-recovered", "the server logged a recovered panic: "+l)
+		}
+		r.Inc("half_close_cases", 1)
+	})
+	switch {
+	case res.TimedOut:
+		r.Inconclusive("real-time watchdog expired inside a bubble")
+	case res.Panic != "":
+		fail("panic", "panic on the scenario goroutine: "+res.Panic+"\n"+res.PanicStack)
+	case res.Deadlock:
+		fail("goroutine-stuck-for-ever", "the bubble ended with goroutines that can never run again (synctest deadlock)")
+	}
+	r.Mark("families", "half-close")
+	r.Eval(vf.Hash("half-close", buf, size>>20, mode), true)
 }
